@@ -21,7 +21,7 @@ theorem transfer_roundtrip (data tls rest : Bytes) (h1 : data.length < 429496729
     decodeRead (encodeRead data tls ++ rest) = some (data, tls, rest) := by
   have hh : recvHead (encodeRead data tls ++ rest) = some (data.length, tls.length, data ++ tls ++ rest) := by
     have := recvHead_buildHead data.length tls.length h1 h2 (data ++ tls ++ rest)
-    simpa [encodeRead, List.append_assoc] using this
+    simpa [encodeRead_eq, List.append_assoc] using this
   have hm : recvMsg (data ++ tls ++ rest) (Gen.Transfer.readPayloadLen (data.length : Int) (tls.length : Int)).toNat
       = some (data ++ tls, rest) := by
     rw [readPayloadLen_nat, ← List.length_append]
@@ -33,7 +33,7 @@ theorem transfer_write_roundtrip (id : Nat) (data rest : Bytes) (hid : id < 4294
     decodeWrite (encodeWrite id data ++ rest) = some (id, data, rest) := by
   have hh : recvHead (encodeWrite id data ++ rest) = some (data.length, id, data ++ rest) := by
     have := recvHead_buildHead data.length id hd hid (data ++ rest)
-    simpa [encodeWrite, List.append_assoc] using this
+    simpa [encodeWrite_eq, List.append_assoc] using this
   exact decodeWrite_some_of _ _ _ _ _ _ hh (recvMsg_append data rest)
 
 /-- the connection-id reply round-trips -/
@@ -141,7 +141,7 @@ theorem goaway_broadcast (s : Sys) (stage : Int) (hx : s.exited = false)
     (hcb : (lisShutdown s.lis stage).2.shutdownCb > 0) :
     (step s (.signal stage)).conns = s.conns.map (fun c => { c with goAway := c.goAway + 1 })
     ∧ (step s (.signal stage)).draining = true ∧ (step s (.signal stage)).waited = 0 := by
-  simp [step, hx, hcb]
+  simp [step, hx, hcb, onShutdownWaits, onShutdownBroadcasts]
 
 /-- the part of the statement MOSN does NOT guarantee on a plain graceful stop (machine-checked witness of the
 finding): a request whose bytes have only partly arrived is not counted by the drain loop, so the exit label is enabled
